@@ -7,7 +7,7 @@ from nvsa.report import AnalysisError
 
 from ._c14_c import View, _calls, _tail_shape, byte_assembly, byte_table, rmw_core
 from ._c14_common import (LITERAL_BITS, alpha_print, flat, is_int, is_min, name_width, res, return_type, then_returns, times8, type_bytes, upper_bound,
-                          zero_fill_guard_ok)
+                          zero_fill_guard_ok, early_exit_before)
 
 THIS = ("this",)
 DATA_SIZE = ("mcall", ("ref", "data_"), "size", ())
@@ -186,6 +186,8 @@ def rule_get(ms, clamp_present: bool) -> typing.List[dict]:
                         detail = "no memset of the output tail before the copy"
                         if ok:
                             gok, gdetail = zero_fill_guard_ok(pre_s[0][0].guards, pre[0][2][2], env)
+                            if gok:
+                                gok, gdetail = early_exit_before(v.stmts, pre_s[0][0].index, {p_ for p_ in v.params if "len" in p_})
                             out.append(res(R, k, f"{k}: the zero fill of the output tail is not skipped while bytes remain to be cleared", gok, gdetail))
                             start, count = cast.substitute(pre[0][2][0], env), cast.substitute(pre[0][2][2], env)
                             frag = cast.show(("bin", "/", n, ("int", 8, "")))
@@ -404,6 +406,44 @@ def rule_errprop(ms) -> typing.List[dict]:
     return out
 
 
+def rule_exact_fit(ms) -> typing.List[dict]:
+    """a request that fits the buffer exactly is served: the comparisons that return SerializationBufferTooSmall are strict,
+    except the single-bit form `size * 8 <= offset` (one more bit is needed)"""
+    R = "R-C14-SET-BOUND"
+    out = []
+    for k, fn in ms.items():
+        if not (k.startswith("bitspan::") or k.startswith("any_bitspan::")) or k.startswith("bitspan::bitspan"):
+            continue
+        v = View(k, fn)
+        for s_ in v.stmts:
+            if s_.node.get("kind") != "IfStmt":
+                continue
+            ret = then_returns(s_.node)
+            if ret is None or ERR not in cast.term_refs(ret):
+                continue
+            c = cast.term(s_.node["inner"][0])
+            atoms = []
+
+            def split(t):
+                if t[0] == "bin" and t[1] in ("||", "&&"):
+                    split(t[2])
+                    split(t[3])
+                else:
+                    atoms.append(t)
+            split(c)
+            bad = []
+            for a in atoms:
+                if a[0] == "bin" and a[1] in ("<=", ">="):
+                    lhs, rhs = (a[2], a[3]) if a[1] == "<=" else (a[3], a[2])
+                    single_bit = times8(lhs) == DATA_SIZE and rhs == OFFSET
+                    if not single_bit:
+                        bad.append(cast.show(a))
+            out.append(res(R, k, f"{k}: refusal `{cast.show(c)[:70]}` admits the exact fit", not bad,
+                           f"`{bad[0] if bad else ''}` also refuses a request that ends (or starts, for an empty one) exactly at the end of the buffer: "
+                           "serialization into a buffer of exactly the advertised size fails"))
+    return out
+
+
 def analyse(objs, text: str, point):
     ms = cast.cpp_methods(objs)
     for need in ("bitspan::setBit", "bitspan::setUxx", "const_bitspan::copyTo/2", "const_bitspan::getU8", "const_bitspan::getBits"):
@@ -412,6 +452,7 @@ def analyse(objs, text: str, point):
     out = []
     clamp, _ = rule_clamp(ms)
     out += rule_set_bound(ms)
+    out += rule_exact_fit(ms)
     out += rule_get(ms, clamp)
     out += rule_shift_width(ms)
     out += rule_tail(ms)
